@@ -278,6 +278,28 @@ def run(repo: Repo, chk: Check):
     chk.judge("R04.f", "register_assignment:assign_registers:a scope's blocked set includes its callers' blocked sets (transitivity)", ok_tr,
               "blocked_registers_by_scope[scope] does not include the callers' blocked registers: a function called through an intermediate function "
               "could reuse a register that is live in its caller's caller", None, wa)
+    # ... and that store is reached for EVERY scope of the order (also one that holds no registers of its own)
+    if blocked_map:
+        bstores = [st for st in ast.walk(outer) if isinstance(st, ast.Assign) and any(isinstance(tg, ast.Subscript) and norm(tg.value) == blocked_map for tg in st.targets)]
+        head = [n.id for n in cfg.nodes if n.kind == "for" and n.stmt is outer]
+        ok_every = False
+        if head and bstores:
+            store_ids = {i for st in bstores for i in live_ids(cfg, st)}
+            # from the loop head (an element was taken) every path back to the head passes a store
+            first = [b for b, lab in cfg.succ[head[0]] if isinstance(lab, tuple) and lab[1] is True]
+            seen, stack, ok_every = set(), list(first), True
+            while stack:
+                a = stack.pop()
+                if a in seen or a in store_ids:
+                    continue
+                seen.add(a)
+                if a == head[0]:
+                    ok_every = False
+                    break
+                stack.extend(b for b, lab in cfg.succ[a] if not (isinstance(lab, tuple) and lab[0] == "exc"))
+        chk.judge("R04.f", "register_assignment:assign_registers:every scope records its blocked set", ok_every,
+                  "some scope of the processing order is skipped before its blocked set is stored (e.g. a function that holds no values of its own): "
+                  "the registers blocked by its callers are not handed down to the functions it calls", None, wa)
     # every allocated register is added to the own blocked set unconditionally
     ok_add = False
     if own_blocked:
